@@ -1,6 +1,6 @@
 (* EngineFSSound.v — property C06 for the engine model over finite sets: every table entry
-   of the engine's result is included in the least solution (proved for all CFGs, WTOs whose
-   cycles contain the start block only as head, parameters and fuel), and it equals the least
+   of the engine's result is included in the least solution (proved for all CFGs, WTOs, start blocks,
+   parameters and fuel), and it equals the least
    solution — i.e. exactly the reaching states — whenever the verified inductiveness check
    accepts it. *)
 From Coq Require Import List Bool Arith NArith Lia.
@@ -77,14 +77,13 @@ Section FS.
   Qed.
 
   Theorem fs_engine_below e :
-    entry_ok (f_entry F) w = true ->
     sub (f_init F) (Lpre (f_entry F)) ->
     fs_engine S F w delay desc use_asm fuel = Some e ->
     forall n, sub (e_pre N e n) (Lpre n) /\ sub (e_post N e n) (Lpost n).
   Proof.
-    intros OK IB RUN.
+    intros IB RUN.
     destruct range as (RE & RP & RO).
-    pose proof (run_below N (fs_ops S) sub sub_refl sub_trans sub_zero sub_join sub_meet_l sub_meet_mono
+    pose proof (run_below N (fs_ops S) sub sub_trans sub_zero sub_join sub_meet_l sub_meet_mono
                   (fun _ _ _ => eq_refl) (fun _ _ => eq_refl)
                   (fun n a => image (f_rel F n) a) (fun n a b H => image_mono (f_rel F n) a b H)
                   (f_preds F) (nest_of w) (f_entry F) delay desc use_asm (f_asm F) fuel (f_init F)
@@ -115,7 +114,7 @@ Section FS.
     assert (H5 : forall n c, sub (strengthen N (fs_ops S) use_asm (f_asm F) n (o_bot N (fs_ops S))) c).
     { intros n c. rewrite strengthen_eq, strengthen_sub_spec. intros s Z.
       change (smem s 0%N = true) in Z. unfold smem in Z. rewrite N.bits_0 in Z. discriminate. }
-    specialize (RB H1 H2 H3 IB H4 H5 w OK).
+    specialize (RB H1 H2 H3 IB H4 H5 w).
     unfold fs_engine in RUN. rewrite RUN in RB. destruct RB as [P Q]. intros n. split; auto.
   Qed.
 End FS.
@@ -166,7 +165,6 @@ Section Exact.
   Qed.
 
   Theorem fs_engine_exact e :
-    entry_ok (f_entry F) w = true ->
     sub (f_init F) (fst t (f_entry F)) ->
     fs_engine S F w delay desc use_asm fuel = Some e ->
     inductive_ok N (fs_ops S) (fun n a => image (f_rel F n) a) (f_preds F) (f_entry F) use_asm (f_asm F)
@@ -175,14 +173,14 @@ Section Exact.
       (smem s (e_pre N e n) = true <-> ReachPre F n s) /\
       (smem s (e_post N e n) = true <-> ReachPost F n s).
   Proof.
-    intros OK IB RUN IND n s L.
+    intros IB RUN IND n s L.
     pose proof LFP as LFP'. unfold lfp in LFP'.
     destruct (solvesb F _) eqn:SB; inversion LFP' as [ET]. clear LFP'.
     pose proof (solvesb_solves F _ SB) as SOL. rewrite ET in SOL.
     destruct (lfp_is_reach F rounds _ range LFP) as [LR1 LR2].
     assert (IB' : sub (f_init F) (Lpre F t (f_entry F))).
     { unfold Lpre. destruct range as (RE & _). destruct (Nat.ltb_spec (f_entry F) (f_blocks F)); [auto|lia]. }
-    destruct (fs_engine_below S F w delay desc fuel use_asm t range SOL asm_used e OK IB' RUN n) as [B1 B2].
+    destruct (fs_engine_below S F w delay desc fuel use_asm t range SOL asm_used e IB' RUN n) as [B1 B2].
     unfold Lpre, Lpost in B1, B2. destruct (Nat.ltb_spec n (f_blocks F)); [|lia].
     destruct range as (RE & RP & RO).
     assert (NC : In (f_entry F) (seq 0 (f_blocks F)) /\
